@@ -40,6 +40,9 @@ if n == fail_at:
         sys.stdout.write("s SATISFIABLE\n")
     elif kind == "empty-v":
         sys.stdout.write("s SATISFIABLE\nv\n")
+    elif kind.startswith("status:"):
+        # a solver that gives up (time / memory limit, interrupt) or prints an unexpected status line
+        sys.stdout.write("c interrupted\n" + kind[7:].replace("_", " ") + "\n")
     elif kind.startswith("bigerr:"):
         # a chatty solver: k bytes of diagnostics on the standard error stream, then the honest answer
         k = int(kind[7:])
